@@ -288,8 +288,8 @@ func (e *env) index(base, idx sval, x spec.Expr) sval {
 			return e.fail("slice element type unknown: %s", x)
 		}
 		es := c.S.SortOf(et)
-		h := c.region(e.st, c.elemKey(es), c.elemSort(es))
-		return sval{t: fmt.Sprintf("(select (select %s (sbase %s)) (+ (soff %s) %s))", h, base.t, base.t, idx.t), sort: es, gt: et}
+		h := c.region(e.st, c.elemKey(et), c.elemSort(es))
+		return sval{t: fmt.Sprintf("(select (select %s (sbase %s)) (idx (soff %s) %s))", h, base.t, base.t, idx.t), sort: es, gt: et}
 	case strings.HasPrefix(base.sort, "(Array Int "):
 		var et types.Type
 		if base.gt != nil {
@@ -304,14 +304,14 @@ func (e *env) index(base, idx sval, x spec.Expr) sval {
 			if e.st == nil {
 				return e.fail("heap access not allowed here: %s", x)
 			}
-			ks, vs := c.S.SortOf(mt.Key()), c.S.SortOf(mt.Elem())
-			mv := c.region(e.st, "MV:"+ks+":"+vs, "(Array Int (Array "+ks+" "+vs+"))")
+			vs := c.S.SortOf(mt.Elem())
+			mv := c.region(e.st, c.mapValKey(mt), c.mapValSort(mt))
 			return sval{t: fmt.Sprintf("(select (select %s %s) %s)", mv, base.t, idx.t), sort: vs, gt: mt.Elem()}
 		}
 		if pt, ok := types.Unalias(base.gt).Underlying().(*types.Pointer); ok {
 			if ar, ok := types.Unalias(pt.Elem()).Underlying().(*types.Array); ok {
 				es := c.S.SortOf(ar.Elem())
-				h := c.region(e.st, c.elemKey(es), c.elemSort(es))
+				h := c.region(e.st, c.elemKey(ar.Elem()), c.elemSort(es))
 				return sval{t: fmt.Sprintf("(select (select %s %s) %s)", h, base.t, idx.t), sort: es, gt: ar.Elem()}
 			}
 		}
@@ -487,17 +487,50 @@ func (e *env) call(x *spec.Call) sval {
 		case v.sort == "Slice":
 			return sval{t: "(slen " + v.t + ")", sort: "Int", gt: types.Typ[types.Int]}
 		case v.gt != nil:
-			if _, ok := types.Unalias(v.gt).Underlying().(*types.Map); ok {
+			if mt, ok := types.Unalias(v.gt).Underlying().(*types.Map); ok {
 				if e.st == nil {
 					return e.fail("heap access not allowed here: %s", x)
 				}
-				return sval{t: fmt.Sprintf("(select %s %s)", c.region(e.st, "ML", "(Array Int Int)"), v.t), sort: "Int", gt: types.Typ[types.Int]}
+				return sval{t: fmt.Sprintf("(select %s %s)", c.region(e.st, c.mapLenKey(mt), "(Array Int Int)"), v.t), sort: "Int", gt: types.Typ[types.Int]}
 			}
 			if ar, ok := types.Unalias(v.gt).Underlying().(*types.Array); ok {
 				return sval{t: fmt.Sprint(ar.Len()), sort: "Int", gt: types.Typ[types.Int]}
 			}
 		}
 		return e.fail("len of %s", x.Args[0])
+	case "hasPrefix":
+		if !argOK(2) {
+			return sval{t: "false", sort: "Bool"}
+		}
+		s, p := e.tr(x.Args[0]), e.tr(x.Args[1])
+		return sval{t: fmt.Sprintf("(hasPrefix %s %s)", s.t, p.t), sort: "Bool", gt: types.Typ[types.Bool]}
+	case "fnres0", "fnres1", "fnres2":
+		// fnresN(f, args...): the N-th result of calling the function value f (calls through unknown
+		// function values are modelled as deterministic, effect-free applications)
+		if len(x.Args) < 1 {
+			return e.fail("%s needs a function argument", name)
+		}
+		f := e.tr(x.Args[0])
+		sig, ok := types.Unalias(f.gt).Underlying().(*types.Signature)
+		if f.gt == nil || !ok {
+			return e.fail("%s: first argument is not a function value", name)
+		}
+		n := int(name[5] - '0')
+		if n >= sig.Results().Len() {
+			return e.fail("%s: function has %d results", name, sig.Results().Len())
+		}
+		var asorts, aterms []string
+		for i, a := range x.Args[1:] {
+			av := e.tr(a)
+			if i < sig.Params().Len() {
+				asorts = append(asorts, c.S.SortOf(sig.Params().At(i).Type()))
+			}
+			aterms = append(aterms, av.t)
+		}
+		rt := sig.Results().At(n).Type()
+		fname := q(fmt.Sprintf("apply.%s.%d", shortType(sig), n))
+		c.S.declareOnce(fmt.Sprintf("(declare-fun %s (Fn %s) %s)", fname, strings.Join(asorts, " "), c.S.SortOf(rt)))
+		return sval{t: fmt.Sprintf("(%s %s %s)", fname, f.t, strings.Join(aterms, " ")), sort: c.S.SortOf(rt), gt: rt}
 	case "cap":
 		v := e.tr(x.Args[0])
 		return sval{t: "(scap " + v.t + ")", sort: "Int", gt: types.Typ[types.Int]}
@@ -527,8 +560,7 @@ func (e *env) call(x *spec.Call) sval {
 		if !ok || e.st == nil {
 			return e.fail("has() needs a map and a heap: %s", x)
 		}
-		ks := c.S.SortOf(mt.Key())
-		mh := c.region(e.st, "MH:"+ks, "(Array Int (Array "+ks+" Bool))")
+		mh := c.region(e.st, c.mapHasKey(mt), c.mapHasSort(mt))
 		return sval{t: fmt.Sprintf("(select (select %s %s) %s)", mh, m.t, k.t), sort: "Bool"}
 	case "string", "int", "int64", "int32", "int8", "int16", "uint", "uint64", "uint32", "uint8", "uint16", "byte", "rune":
 		// conversions are mathematical identities in specs
